@@ -222,7 +222,7 @@ def concurrent_pairs(h):
     return n
 
 
-_race_fn = re.compile(r"^\s+(github\.com/AdguardTeam/AdGuardHome/internal/[^\s(]+?)\(", re.M)
+_race_fn = re.compile(r"^\s+(github\.com/AdguardTeam/AdGuardHome/internal/\S+?)\(\)\s*$", re.M)
 
 
 def race_reports(out):
@@ -239,6 +239,10 @@ def race_reports(out):
         key = "race:" + "|".join(sorted(fns))
         reps.setdefault(key, blk.strip()[:4000])
     return reps
+
+
+def crashed(out):
+    return "panic" in out or "fatal error:" in out
 
 
 def schedules(ctx, n, race):
@@ -261,11 +265,11 @@ def schedules(ctx, n, race):
                 raise vlib.Inconclusive("race report not reproduced on a second run:\n" + "\n".join(reps))
             return rows, [], 0
     if rc != 0 or not rows:
-        if "panic" in out:
+        if crashed(out):
             rc2, out2, _, _ = record_hists(ctx, n, race=race)
-            if rc2 != 0 and "panic" in out2:
+            if rc2 != 0 and crashed(out2):
                 ctx.disagreement(classify({"kind": "panic"}), {"kind": "panic", "race": race, "n": n, "output": out[-4000:]},
-                                 "panic while Update / flush / GET /control/stats run concurrently")
+                                 "panic / fatal runtime error while Update / flush / GET /control/stats run concurrently")
                 return rows, [], 0
         raise vlib.Inconclusive("C09 %sconcurrent driver did not complete:\n%s" % (tag, out[-3000:]))
     rej = validate_hists(ctx, rows, path)
@@ -431,7 +435,7 @@ def replay(ctx, path):
     if kind in ("race", "panic"):
         rc, out, rows, _ = record_hists(ctx, rec.get("n", 60), race=True)
         reps = race_reports(out)
-        hit = (rec.get("key") in reps) if kind == "race" else (rc != 0 and "panic" in out)
+        hit = (rec.get("key") in reps) if kind == "race" else (rc != 0 and crashed(out))
         print(json.dumps({"expected": "no data race, no panic", "observed": sorted(reps) or ("panic" if hit else "none")}, indent=1))
         return 1 if hit else 0
     raise vlib.Inconclusive("unknown replay record kind %r" % kind)
